@@ -379,12 +379,11 @@ func c07One(res *Result, base string, cs *c07Case, distinct map[string]struct{})
 	// With a non-canonical spelling of the root path the code identifies the root file by two
 	// different names, so a cycle through the root is detected one lap later: the verdict
 	// (recursion error) is the property, the exact lap is not.
+	// (the model says whether the root file is opened again: an INCLUDE that names it may never be reached)
 	reentersRoot := false
-	for _, tt := range cs.Content {
-		for _, t := range tt {
-			if t.T == "I" && len(t.P) > 0 && t.P[0] == "root.jst" {
-				reentersRoot = true
-			}
+	for _, o := range cs.Opened {
+		if o == "root.jst" {
+			reentersRoot = true
 		}
 	}
 	if strings.HasSuffix(rootPath, "lnkroot.jst") {
@@ -595,4 +594,118 @@ func locationTruthful(je *jerr.JApiError) bool {
 		return strings.HasSuffix(je.Quote, "...")
 	}
 	return je.Quote == q
+}
+
+// inc-rand <out.ndjson> <seed> <n>: random projects beyond the bounds of MC_C07 (six files in two directories, up to 7
+// tokens per file); spec/MC_IncRand.tla runs the specification on each and emits the expectation c07-replay compares.
+func init() { subcmds["inc-rand"] = incRand }
+
+func incRand(args []string) *Result {
+	res := &Result{}
+	r := newRng(uint64(atoi(args[1])))
+	n := atoi(args[2])
+	w := newNDJSON(args[0])
+	defer w.close()
+	files := []string{"root.jst", "a.jst", "b.jst", "c.jst", "sub/d.jst", "sub/e.jst"}
+	d := func(k string, e bool, p ...string) Tok {
+		if p == nil {
+			p = []string{}
+		}
+		return Tok{T: "D", K: k, P: p, E: e}
+	}
+	inc := func(name string) Tok { return Tok{T: "I", K: "INCLUDE", P: []string{name}} }
+	for c := 0; c < n; c++ {
+		content := map[string][]Tok{}
+		// how likely an INCLUDE points backwards (towards the root): cycles are rare, most graphs are DAGs with sharing
+		back := []int{0, 0, 10, 40}[r.intn(4)]
+		for fi, f := range files {
+			toks := []Tok{}
+			max := 1 + r.intn(7)
+			if fi > 0 && r.intn(8) == 0 {
+				max = 0
+			}
+			open, method := 0, false
+			for tries := 0; len(toks) < max && tries < 40; tries++ {
+				switch x := r.intn(20); {
+				case x < 7:
+					// INCLUDE
+					var name string
+					tgt := fi + 1 + r.intn(len(files)-fi)
+					if tgt >= len(files) || r.intn(100) < back {
+						tgt = r.intn(len(files))
+					}
+					name = files[tgt]
+					if strings.HasPrefix(f, "sub/") {
+						// names are relative to the including file's directory
+						switch {
+						case strings.HasPrefix(name, "sub/") && r.intn(6) > 0:
+							name = strings.TrimPrefix(name, "sub/")
+						case r.intn(3) == 0:
+							name = "../" + name
+						}
+					} else if strings.HasPrefix(name, "sub/") && r.intn(8) == 0 {
+						name = strings.TrimPrefix(name, "sub/") // looked up in the wrong directory: does not exist
+					}
+					if name == "../root.jst" || name == "../b.jst" || name == "../c.jst" || strings.HasPrefix(name, "../sub") {
+						name = "../a.jst"
+					}
+					if r.intn(40) == 0 {
+						name = r.pick([]string{"missing.jst", "sub", "..", "/a.jst", "x\\y.jst", "", "./a.jst", "sub/../a.jst"})
+					}
+					t := inc(name)
+					if r.intn(60) == 0 {
+						t.P = append(t.P, "extra")
+					}
+					if r.intn(60) == 0 {
+						t.A = "note"
+					}
+					toks = append(toks, t)
+				case x < 13:
+					toks = append(toks, d("TYPE", false, r.pick([]string{"@t1", "@t2", "@t3", "@t4", "@t5", "@t6", "@t7", "@t8", "@t9"}), "any"))
+				case x < 15:
+					e := r.intn(3) == 0
+					if e {
+						open++
+					}
+					toks = append(toks, d("URL", e, r.pick([]string{"pa", "pai"})))
+				case x < 17:
+					method = true
+					if r.intn(2) == 0 {
+						toks = append(toks, d("GET", false, "pb"))
+					} else {
+						toks = append(toks, d(r.pick([]string{"GET", "POST"}), false))
+					}
+				case x < 18:
+					if method || r.intn(10) == 0 {
+						toks = append(toks, d("RESP", false, "any"))
+					}
+				case x < 19:
+					if open > 0 || r.intn(25) == 0 {
+						open--
+						method = false
+						toks = append(toks, Tok{T: "C", K: ")", P: []string{}})
+					}
+				default:
+					switch r.intn(6) {
+					case 0:
+						toks = append(toks, d("Body", false, "any"))
+					case 1:
+						open++
+						toks = append(toks, d("MACRO", true, r.pick([]string{"@m1", "@m2"})))
+					}
+				}
+			}
+			if open > 0 && r.intn(5) > 0 {
+				for ; open > 0; open-- {
+					toks = append(toks, Tok{T: "C", K: ")", P: []string{}})
+				}
+			}
+			content[f] = toks
+		}
+		w.write(map[string]any{"content": content})
+		res.Cases++
+	}
+	res.Nontrivial = res.Cases
+	res.sample(map[string]any{"projects": n})
+	return res
 }
